@@ -2,3 +2,4 @@ SPECIFICATION Spec
 INVARIANT AsBuiltHolds
 CHECK_DEADLOCK FALSE
 CONSTANT KeyMergesWsIntoHttp = FALSE
+CONSTANT SetterDropsTls = FALSE
